@@ -117,9 +117,14 @@ impl SampleIndex {
     // Returns `(samples, divisor)` such that `i / divisor` for `i in 0..universe` maps evenly to `0..samples`.
     fn parameters(values: usize, universe: usize) -> (usize, usize) {
         let num_samples = bits::div_round_up(values, Self::RATIO);
-        let divisor = bits::div_round_up(universe, num_samples);
-        let num_samples = bits::div_round_up(universe, divisor);
+        let divisor = Self::div_round_up(universe, num_samples);
+        let num_samples = Self::div_round_up(universe, divisor);
         (num_samples, divisor)
+    }
+
+    // Divides `value` by `n` and rounds up without overflowing when `value` is close to `usize::MAX`.
+    fn div_round_up(value: usize, n: usize) -> usize {
+        value / n + ((value % n != 0) as usize)
     }
 }
 
